@@ -158,7 +158,8 @@ class Ctx:
         for v in self.violations:
             print("VIOLATION property=%s replay=%s" % (self.pid, v["replay"]))
             print("   ", v["what"][:500])
-        shutil.rmtree(self.work, ignore_errors=True)
+        if not os.environ.get("VERIF_KEEP"):
+            shutil.rmtree(self.work, ignore_errors=True)
         return 1 if self.violations else 0
 
 
